@@ -131,6 +131,25 @@ def generate(seed, tier="quick"):
     frng = sub(seed, "flags")
     approved = frng.choice([["create", "fix"], list(CATS), ["fix"], [], ["create"], ["trim", "update"], [c for c in CATS if frng.random() < 0.5]])
     driver = "plugin" if sub(seed, "driver").random() < 0.3 else "inline"
+    erng = sub(seed, "externals")
+    if driver == "plugin" and erng.random() < 0.4:
+        # outsourced data: session end also persists / prunes / trims files of the external storage
+        from . import c13
+
+        f = prog["files"][0]
+        need_import = False
+        for k in range(erng.randint(1, 2)):
+            sid = f"x{k}"
+            prevx = erng.choice([None, None, '"old"', 'external("00000000aaaa*.txt")'])
+            need_import = need_import or (prevx is not None and "external" in prevx)
+            f["sites"][sid] = {"op": "eq", "place": "direct", "arg": prevx, "prev": None, "trouble": "externals"}  # not judged by the value model
+            erng.choice(f["tests"])["events"].append({"t": "cmp", "eid": f"ex{k}", "site": sid, "vals": [c13.wrap(erng, c13.ext_value(erng))], "style": "rec"})
+        if need_import:
+            f["header"]["imports"] = "explicit"
+            f["header"].setdefault("pre", []).insert(0, "from inline_snapshot import external")
+        kinds.append("externals")
+        if erng.random() < 0.5:
+            approved = erng.choice([["create", "trim"], ["fix", "trim"], list(CATS), ["create", "fix", "trim"]])
     return {"program": prog, "approved": approved, "driver": driver, "fmt": draw_fmt(sub(seed, "fmt")), "kinds": kinds}
 
 
